@@ -350,7 +350,13 @@ func observe(w b6.World, ids []b6.FeatureID) wk.Dump {
 }
 
 // classify one differing section: got vs want are space separated sorted ID lists.
-func classify(kind, section, got, want string, replaced map[string]bool) string {
+func classify(kind, section, got, want string, former []wk.Dump) string {
+	replaced := map[string]bool{} // referrers (under this query) in an earlier state of the history
+	for _, f := range former {
+		for _, x := range strings.Fields(f[section]) {
+			replaced[x] = true
+		}
+	}
 	sec := wk.SectionClass(section)
 	if strings.HasPrefix(sec, "refs-") {
 		sec = "refs-typed"
@@ -387,7 +393,7 @@ func classify(kind, section, got, want string, replaced map[string]bool) string 
 	}
 	switch {
 	case stale:
-		return kind + ":" + sec + ":reports-replaced-referrer-that-no-longer-refers"
+		return kind + ":" + sec + ":reports-former-referrer-that-no-longer-refers"
 	case extra:
 		return kind + ":" + sec + ":reports-non-referrer"
 	case missing:
@@ -398,7 +404,7 @@ func classify(kind, section, got, want string, replaced map[string]bool) string 
 	return kind + ":" + sec + ":differs"
 }
 
-func compare(r *kit.Result, kind string, got, want wk.Dump, replaced map[string]bool, what func() string) bool {
+func compare(r *kit.Result, kind string, got, want wk.Dump, former []wk.Dump, what func() string) bool {
 	var secs []string
 	for k := range want {
 		secs = append(secs, k)
@@ -412,7 +418,7 @@ func compare(r *kit.Result, kind string, got, want wk.Dump, replaced map[string]
 			g = "MISSING-SECTION"
 		}
 		if g != want[k] {
-			c := classify(kind, k, g, want[k], replaced)
+			c := classify(kind, k, g, want[k], former)
 			if _, seen := byClass[c]; !seen {
 				order = append(order, c)
 			}
@@ -420,6 +426,16 @@ func compare(r *kit.Result, kind string, got, want wk.Dump, replaced map[string]
 		}
 	}
 	for _, c := range order {
+		already := false
+		for _, v := range r.Violations {
+			if v.Class == c {
+				already = true
+			}
+		}
+		if already { // one counterexample per class and case (the first = shortest history)
+			r.Count("further-violations:"+c, 1)
+			continue
+		}
 		l := byClass[c]
 		if len(l) > 6 {
 			l = append(l[:6], fmt.Sprintf("... and %d more sections", len(l)-6))
@@ -529,10 +545,18 @@ func runHistories(r *kit.Result, c *histCfg, start state) {
 		validCache[st] = v
 		return v
 	}
+	expect := func(st state) wk.Dump {
+		want, ok := expectCache[st]
+		if !ok {
+			want = closureExpect(st.spec(c.m, c.sch), ids)
+			expectCache[st] = want
+		}
+		return want
+	}
 	check := func(n node) {
 		// fresh world, replay
 		var w ingest.MutableWorld
-		replaced := map[string]bool{}
+		var former []wk.Dump // expectations of the earlier states of this history
 		dropped := false
 		cur := start
 		describe := func() string {
@@ -560,8 +584,8 @@ func runHistories(r *kit.Result, c *histCfg, start state) {
 			old := curSpec.Find(nf.ID)
 			if dropsReference(old, nf) {
 				dropped = true
-				replaced[nf.ID.String()] = true
 			}
+			former = append(former, expect(cur))
 			if err := w.AddFeature(nf.Feature()); err != nil {
 				// the model holds the edit valid; acceptance is not this property's subject
 				r.Count("valid-edit-rejected", 1)
@@ -570,15 +594,11 @@ func runHistories(r *kit.Result, c *histCfg, start state) {
 			}
 			cur[o.slot] = o.v
 		}
-		want, ok := expectCache[n.st]
-		if !ok {
-			want = closureExpect(n.st.spec(c.m, c.sch), ids)
-			expectCache[n.st] = want
-		}
+		want := expect(n.st)
 		got := observe(w, ids)
 		r.Evals++
 		r.Transitions += int64(len(n.hist))
-		good := compare(r, c.kind, got, want, replaced, describe)
+		good := compare(r, c.kind, got, want, former, describe)
 		mr := 0
 		for _, v := range want {
 			if v != "" {
@@ -630,18 +650,9 @@ func runHistories(r *kit.Result, c *histCfg, start state) {
 
 // ---- static worlds ------------------------------------------------------------------
 
-func hasCollection(spec wk.Spec) bool {
-	for _, f := range spec {
-		if f.Kind == wk.KCollection {
-			return true
-		}
-		for _, x := range f.Refs() {
-			if x.Type == b6.FeatureTypeCollection {
-				return true
-			}
-		}
-	}
-	return false
+// hasCollection: the state holds the collection or a relation with a collection member.
+func hasCollection(m []slot, st state) bool {
+	return st[sC0] != 0 || strings.Contains(m[sR0].vs[st[sR0]].name, "c0")
 }
 
 func runStatic(r *kit.Result, m []slot, sch wk.IDScheme, kind string, st state) {
@@ -714,7 +725,20 @@ func radices(m []slot, small bool) []int {
 // states enumerates every valid state of the menu under the radices, split
 // into acyclic and cyclic ones (validity depends on the physical slots only,
 // cyclicity on relations and collection only).
-func states(m []slot, rad []int, sch wk.IDScheme) (acyclic, cyc []state) {
+var statesCache = map[string][2][]state{}
+
+func states(m []slot, rad []int, _ wk.IDScheme) (acyclic, cyc []state) {
+	key := fmt.Sprint(rad)
+	if c, ok := statesCache[key]; ok {
+		return c[0], c[1] // sorted by size; callers do not modify
+	}
+	acyclic, cyc = states1(m, rad, wk.Schemes[0])
+	acyclic, cyc = bySize(m, acyclic), bySize(m, cyc)
+	statesCache[key] = [2][]state{acyclic, cyc}
+	return acyclic, cyc
+}
+
+func states1(m []slot, rad []int, sch wk.IDScheme) (acyclic, cyc []state) {
 	n := kit.Product(rad)
 	physOK := map[[4]int]bool{}
 	rcCyc := map[[3]int]bool{}
@@ -770,6 +794,8 @@ func cyclicPhys(st state) bool {
 	return st[sP0] == 0 && st[sW1] == 0 && ((st[sW0] == 0 && st[sA0] == 0) || (st[sW0] == 1 && st[sA0] == 1))
 }
 
+var lastCases []caseDef // for describing the layout in tests
+
 func build(tier string) (kit.Space, string) {
 	m := menu()
 	thorough := tier == "thorough"
@@ -777,7 +803,7 @@ func build(tier string) (kit.Space, string) {
 	small := radices(m, true)
 	allSlots := []int{sP0, sW0, sW1, sA0, sR0, sR1, sC0}
 	rcSlots := []int{sP0, sR0, sR1, sC0}
-	var cases []caseDef
+	cases := make([]caseDef, 0, 1<<16)
 	var bound []string
 
 	// 1. static worlds over every valid state of the full menu (acyclic), and the
@@ -793,7 +819,6 @@ func build(tier string) (kit.Space, string) {
 			rad = full
 		}
 		ac, cy := states(m, rad, sch)
-		ac = bySize(m, ac)
 		nb, nc := 0, 0
 		for _, st := range ac {
 			cases = append(cases, caseDef{what: "static-basic", sch: si, st: st})
@@ -805,21 +830,21 @@ func build(tier string) (kit.Space, string) {
 		}
 		acC, cyC := states(m, cm, sch)
 		for _, st := range acC {
-			if !hasCollection(st.spec(m, sch)) {
+			if !hasCollection(m, st) {
 				cases = append(cases, caseDef{what: "static-compact", sch: si, st: st})
 				nc++
 			}
 		}
 		ncy := 0
-		for _, st := range bySize(m, cy) {
+		for _, st := range cy {
 			if cyclicPhys(st) {
 				cases = append(cases, caseDef{what: "static-basic", sch: si, st: st})
 				ncy++
 			}
 		}
 		ncc := 0
-		for _, st := range bySize(m, cyC) {
-			if cyclicPhys(st) && !hasCollection(st.spec(m, sch)) {
+		for _, st := range cyC {
+			if cyclicPhys(st) && !hasCollection(m, st) {
 				cases = append(cases, caseDef{what: "static-compact", sch: si, st: st})
 				ncc++
 			}
@@ -870,7 +895,6 @@ func build(tier string) (kit.Space, string) {
 	// 3. family A: histories whose states are all acyclic
 	{
 		acS, _ := states(m, small, sch)
-		acS = bySize(m, acS)
 		d := 2
 		if thorough {
 			d = 3
@@ -883,7 +907,6 @@ func build(tier string) (kit.Space, string) {
 		}
 		bound = append(bound, fmt.Sprintf("acyclic family, small menu: %d start states x 2 kinds x every all-acyclic sequence of <= %d of %d operations", len(acS), d, len(ops(m, small, allSlots))))
 		acF, _ := states(m, full, sch)
-		acF = bySize(m, acF)
 		d = 1
 		if thorough {
 			d = 2
@@ -897,6 +920,7 @@ func build(tier string) (kit.Space, string) {
 		bound = append(bound, fmt.Sprintf("acyclic family, full menu: %d start states x 2 kinds x every all-acyclic sequence of <= %d of %d operations", len(acF), d, len(ops(m, full, allSlots))))
 	}
 
+	lastCases = cases
 	return kit.FuncSpace{N: int64(len(cases)), F: func(i int64) kit.Result {
 		var r kit.Result
 		c := cases[i]
@@ -917,9 +941,9 @@ func build(tier string) (kit.Space, string) {
 }
 
 func main() {
-	// A runaway recursion then overflows after 64 MB instead of 1 GB of stack
+	// A runaway recursion then overflows after 8 MB instead of 1 GB of stack
 	// (the deepest legitimate chain in the menu is 5 references).
-	debug.SetMaxStack(64 << 20)
+	debug.SetMaxStack(8 << 20)
 	kit.Main(&kit.Check{
 		ID: "C15", Level: "model_checking",
 		Rule: "state = one variant per slot of the reference-graph menu (P0 plain/tagged; paths W0, W1 through or past P0, closed or open; area A0 on W0, W1 or both; relations R0, R1 with point/path/area/relation/collection members incl. self-membership, mutual membership, duplicate members; collection C0 keyed by point/relation/area/itself), only states valid as given. " +
@@ -928,7 +952,7 @@ func main() {
 		Assumptions: []string{
 			"compact world checked against the chains its own queries define (relations by direct membership, paths of a point, areas of a point through its paths; no collections) — narrower than the transitive closure of the in-memory worlds; the sections where the two definitions differ are counted, not alarmed",
 			"edits are valid as a whole state (worldkit.ValidSubset keeps everything); rejected edits are C13's subject",
-			"stack limit of the worker lowered to 64 MB so unbounded recursion is observed quickly",
+			"stack limit of the worker lowered to 8 MB so unbounded recursion is observed quickly",
 		},
 		CaseTimeout:      20e9,
 		QuickDeadline:    240e9,
